@@ -35,7 +35,7 @@ theorem takeSnapshot_cases (c : Cfg) (s : State) (hio : c.inOrder = true) :
   · simp [hio]
   · split
     · exact Or.inr ⟨_, _, rfl⟩
-    · exact Or.inl rfl
+    · exact Or.inl (by simp [hio])
 
 /-- Yielding: `(numYielded, snap.step, observation)` evolve together. -/
 theorem yieldItem_gs (c : Cfg) (s : State) (r : Res) (b : Nat) (hio : c.inOrder = true)
